@@ -325,6 +325,17 @@ def observer_summary(ctx, rid, f, path, key, value, kind):
     # Some arm only: bucket increment
     # the branch on the scan's result (directly after the call, or — when the scan sits in a helper — wherever its value is finally tested)
     sw = [bi for bi in b.reachable_blocks() if (lambda si_: si_ and si_[0][0] == "discr" and peel(si_[0][1]) == c.result_term())(b.switch_info(bi))]
+    mapped = None
+    if not sw and scan.get("kind") in ("filter-next", "find"):
+        # `iter.next().map(|(i, _)| i)`: the match projected to its index before it is tested
+        for mc in b.calls_to("Option::map"):
+            if peel(mc.args[0], transparent=[]) != c.result_term():
+                continue
+            a_ = peel(mc.args[1], transparent=[])
+            mcl = f.closure(a_[2]) if (isinstance(a_, tuple) and a_ and a_[0] == "agg" and a_[1] == "closure") else None
+            if mcl is not None and peel(mcl.term_local(0)) == ("field", ("param", 2), "0") and not mcl.calls():
+                mapped = mc
+                sw = [bi for bi in b.reachable_blocks() if (lambda si_: si_ and si_[0][0] == "discr" and peel(si_[0][1]) == mc.result_term())(b.switch_info(bi))]
     pp_false = None
     if scan.get("kind") == "partition_point":
         # the found index i is a bucket only when i < len(bounds) (or bounds.get(i) is Some): that test plays the role of the scan's Some arm
@@ -355,6 +366,8 @@ def observer_summary(ctx, rid, f, path, key, value, kind):
     idx_terms = [("field", ("field", ("downcast", c.result_term(), "Some"), "0"), "0")] if scan.get("kind") != "position" else [("field", ("downcast", c.result_term(), "Some"), "0")]
     if scan.get("kind") == "partition_point":
         idx_terms = [c.result_term()]
+    if mapped is not None:
+        idx_terms = [("field", ("downcast", mapped.result_term(), "Some"), "0")]
 
     def is_idx(t):
         if scan.get("kind") == "partition_point":
